@@ -10,6 +10,7 @@ import (
 	"io/ioutil"
 	"net/http"
 	"net/url"
+	"regexp"
 
 	"github.com/emersion/go-vcard"
 
@@ -82,6 +83,9 @@ func verifRequest(method, path string, hdr http.Header, xmlBody interface{}, xml
 		if err != nil {
 			b = []byte("<marshal-error")
 		}
+		if verifForeignProp {
+			b = regexp.MustCompile(`<prop xmlns="urn:ietf:params:xml:ns:carddav"`).ReplaceAll(b, []byte(`<prop xmlns="DAV:"`))
+		}
 		r.Body = ioutil.NopCloser(bytes.NewReader(b))
 	}
 	return r
@@ -102,6 +106,11 @@ func symHeaderValue(hdr http.Header, name string, literals []string) (string, bo
 	return v, true
 }
 
+// verifDecoderRefuses: an attribute text the real enumeration decoder
+// refuses: the XML decoder fails on the document (natively a broken body).
+var verifDecoderRefuses bool
+var verifForeignProp bool
+
 func symReportBody() (interface{}, bool) {
 	switch vrt.Choose("report-kind", 3) {
 	case 0:
@@ -113,8 +122,34 @@ func symReportBody() (interface{}, bool) {
 				pf.IsNotDefined = &struct{}{}
 			}
 			if vrt.Choose("pf-hastext", 2) == 1 {
-				pf.TextMatches = append(pf.TextMatches, textMatch{Text: vrt.Str("text")})
+				tm := textMatch{Text: vrt.Str("text")}
+				if vrt.Choose("tm-has-match-type", 2) == 1 {
+					// any attribute text, through the real decoder of the enumeration
+					text := symEnumText("match-type", "equals")
+					var mt matchType
+					if err := mt.UnmarshalText([]byte(text)); err != nil {
+						verifDecoderRefuses = true
+					} else {
+						tm.MatchType = mt
+					}
+					if text != "equals" && text != "contains" && text != "starts-with" && text != "ends-with" {
+						malformed = true
+					}
+				}
+				pf.TextMatches = append(pf.TextMatches, tm)
 				if pf.IsNotDefined != nil {
+					malformed = true
+				}
+			}
+			if vrt.Choose("pf-has-test", 2) == 1 {
+				text := symEnumText("pf-test", "anyof")
+				var ft filterTest
+				if err := ft.UnmarshalText([]byte(text)); err != nil {
+					verifDecoderRefuses = true
+				} else {
+					pf.Test = ft
+				}
+				if text != "anyof" && text != "allof" {
 					malformed = true
 				}
 			}
@@ -149,11 +184,20 @@ func symReportBody() (interface{}, bool) {
 			if vrt.Bool("ad-allprop") {
 				ad.Allprop = &struct{}{}
 			}
-			if vrt.Choose("ad-hasprop", 2) == 1 {
+			switch vrt.Choose("ad-hasprop", 3) {
+			case 1:
 				ad.Props = append(ad.Props, prop{Name: "FN"})
 				if ad.Allprop != nil {
 					malformed = true
 				}
+			case 2:
+				// a child named prop that is not CARDDAV:prop (natively
+				// <prop xmlns="DAV:" name="FN"/>): the typed decode of the
+				// raw address-data element fails
+				ad.Props = append(ad.Props, prop{Name: "FN"})
+				internal.VerifRawDecodeBad = ad
+				verifForeignProp = true
+				malformed = true
 			}
 			p, _ := internal.EncodeProp(ad)
 			q.Prop = p
@@ -174,6 +218,8 @@ func symReportBody() (interface{}, bool) {
 // VerifH_C13_Handler: as the CalDAV harness, for the CardDAV handler.
 func VerifH_C13_Handler() {
 	internal.VerifResetWire()
+	verifDecoderRefuses, verifForeignProp = false, false
+	verifEnumForm = 0 // attribute texts opaque here; their bytes are the subject of VerifH_C13_Enumerations
 	internal.VerifCopyHook = verifCopy
 	be := &verifBackend{principal: "/dav/u/", homeSet: "/dav/u/contacts/"}
 	be.books = []AddressBook{{Path: "/dav/u/contacts/ab/", Name: "ab"}}
@@ -191,6 +237,10 @@ func VerifH_C13_Handler() {
 		}
 	}
 	level := vrt.Choose("level", len(verifLevelPaths))
+	if method == "REPORT" {
+		// the REPORT body interpretations do not depend on the level: two levels only
+		vrt.Assume(level == 3 || level == 4)
+	}
 	path := verifLevelPaths[level]
 	hdr := http.Header{}
 	malformed := false
@@ -212,9 +262,18 @@ func VerifH_C13_Handler() {
 			xmlBroken = true
 			malformed = true
 		case 2:
-			hdr.Set("Content-Type", "application/xml; charset=utf-8")
+			switch vrt.Choose("propfind-content-type", 3) {
+			case 0:
+				hdr.Set("Content-Type", "application/xml; charset=utf-8")
+			case 1:
+				hdr.Set("Content-Type", "text/xml")
+			case 2:
+				// a media type parameter without a value: not a valid Content-Type
+				hdr.Set("Content-Type", "text/xml;charset")
+				malformed = true
+			}
 			pf := &internal.PropFind{}
-			switch vrt.Choose("propfind-form", 4) {
+			switch vrt.Choose("propfind-form", 6) {
 			case 0:
 				pf.AllProp = &struct{}{}
 			case 1:
@@ -222,6 +281,15 @@ func VerifH_C13_Handler() {
 			case 2:
 				pf.Prop = &internal.Prop{Raw: []internal.RawXMLValue{*internal.NewRawXMLElement(internal.GetETagName, nil, nil)}}
 			case 3:
+				malformed = true // none of the three forms
+			case 4:
+				// propname, allprop and prop are mutually exclusive (RFC 4918 14.20)
+				pf.AllProp = &struct{}{}
+				pf.PropName = &struct{}{}
+				malformed = true
+			case 5:
+				pf.AllProp = &struct{}{}
+				pf.Prop = &internal.Prop{Raw: []internal.RawXMLValue{*internal.NewRawXMLElement(internal.GetETagName, nil, nil)}}
 				malformed = true
 			}
 			xmlBody = pf
@@ -231,16 +299,22 @@ func VerifH_C13_Handler() {
 			malformed = true
 		}
 	case "REPORT":
-		switch vrt.Choose("report-ct", 3) {
+		switch vrt.Choose("report-ct", 4) {
 		case 0:
 			hdr.Set("Content-Type", "text/xml")
 		case 1:
 			hdr.Set("Content-Type", "application/xml")
+		case 3:
+			hdr.Set("Content-Type", "application/xml; charset")
+			malformed = true
 		case 2:
 			hdr.Set("Content-Type", "text/vcard")
 			malformed = true
 		}
-		if vrt.Choose("report-broken", 2) == 1 {
+		if hdr.Get("Content-Type") != "text/xml" {
+			// the other announcements carry one plain well-formed query
+			xmlBody = &reportReq{Query: &addressbookQuery{AllProp: &struct{}{}}}
+		} else if vrt.Choose("report-broken", 2) == 1 {
 			xmlBroken = true
 			malformed = true
 		} else {
@@ -248,6 +322,9 @@ func VerifH_C13_Handler() {
 			xmlBody, bad = symReportBody()
 			if bad {
 				malformed = true
+			}
+			if verifDecoderRefuses {
+				xmlBroken = true
 			}
 			if xmlBody != nil {
 				switch b := xmlBody.(type) {
@@ -356,4 +433,40 @@ func VerifH_C13_Handler() {
 		vrt.Assert(rec.code < 500 || rec.code == 501, "well-formed "+mname+" request must not fail with a server error")
 		vrt.Reach("handler/wellformed")
 	}
+}
+
+// VerifH_C13_Enumerations: the decoders of the enumeration attributes
+// (filter test, match-type, negate-condition) accept exactly the words RFC
+// 6352 defines, for opaque texts of any length and for every byte string of
+// a valid word's length (near misses such as other letter case); whatever
+// they refuse makes the XML decoder fail, which DecodeXMLRequest answers 400.
+func VerifH_C13_Enumerations() {
+	verifEnumForm = -1
+	switch vrt.Choose("attribute", 3) {
+	case 0:
+		text := symEnumText("test", "anyof")
+		var ft filterTest
+		err := ft.UnmarshalText([]byte(text))
+		vrt.Assert((err == nil) == (text == "anyof" || text == "allof"), "filter test attribute: exactly anyof and allof are accepted")
+		if err == nil {
+			vrt.Assert(string(ft) == text, "filter test attribute: decoded value")
+		}
+	case 1:
+		text := symEnumText("match-type", "equals")
+		var mt matchType
+		err := mt.UnmarshalText([]byte(text))
+		vrt.Assert((err == nil) == (text == "equals" || text == "contains" || text == "starts-with" || text == "ends-with"), "match-type attribute: exactly equals, contains, starts-with, ends-with are accepted")
+		if err == nil {
+			vrt.Assert(string(mt) == text, "match-type attribute: decoded value")
+		}
+	case 2:
+		text := symEnumText("negate-condition", "yes")
+		var nc negateCondition
+		err := nc.UnmarshalText([]byte(text))
+		vrt.Assert((err == nil) == (text == "yes" || text == "no"), "negate-condition attribute: exactly yes and no are accepted")
+		if err == nil {
+			vrt.Assert(bool(nc) == (text == "yes"), "negate-condition attribute: decoded value")
+		}
+	}
+	vrt.Reach("enumerations")
 }
